@@ -556,6 +556,14 @@ def several_transfers_family(ctx, res):
             f = _several_judge(inp, o)
             if f:
                 res.oracle_failures.append(f)
+            if getattr(ctx, "model_ok", False) and len(o["marks"]) == len(verbs):
+                # every worker is held inside its body (a stalled reader / a writer that pauses): Model.Abort.aborMany
+                m = drive(["abor many %s %s" % (verbs[0].lower(), " ".join("body" for _ in verbs))])[0]
+                res.lines += 1
+                st = dict(t.split("=", 1) for t in m.split(" ") if "=" in t)
+                want = sorted(int(x) for x in st.get("replies", "~").split(",") if x.isdigit())
+                if want != o["abor_replies"] or (st.get("alive") == "1") != (o["follow"] == [257]):
+                    res.disagreements.append({"correspondence": "Model.Abort.aborMany vs the real server with several workers", "input": inp, "impl": {"replies": o["abor_replies"], "follow": o["follow"]}, "model": m})
 
 
 # ------------------------------------------------------------------------------------------------
